@@ -1,6 +1,8 @@
 //! C02 / C13 (enforced speed profile vs reference step function built from the network) and
 //! C06 (path geometry vs reference walk over the route's own elevation / heading / catenary points).
 use crate::gen::network::{self as gn, GenNet, NetOpts};
+use crate::panics;
+use std::panic::AssertUnwindSafe;
 use crate::report::{close, jf, Ctx};
 use crate::rng::{hash_f64s, mix, Rng};
 use altrios_core::track::{
@@ -566,6 +568,99 @@ pub fn check_geometry(ctx: &mut Ctx, net: &GenNet, route: &[LinkIdx], tp: &Train
     }
 }
 
+/// `PathTpc::clear(offset_back)` releases the links wholly behind a position. Afterwards the profile must still be
+/// the route's geometry from its new first boundary on (same cumulative grade / curve values at every position),
+/// the per-link counts must still add up to the vectors and point at the link boundaries, and the counts it
+/// reports as released must be those of the links it released.
+fn check_clear(ctx: &mut Ctx, rng: &mut Rng, net: &GenNet, route: &[LinkIdx], tp: &TrainParams, built: &PathTpc) {
+    let old = built.clone();
+    let lp_old: Vec<_> = old.link_points().to_vec();
+    let nb = lp_old.len();
+    // a position on or between link boundaries (both ends of the path included)
+    let j = rng.usize(0, nb - 2);
+    let (a, b) = (lp_old[j].offset.value, lp_old[j + 1].offset.value);
+    let x = match rng.usize(0, 3) {
+        0 => a,
+        1 => b,
+        _ => a + (b - a) * rng.range(0.0, 1.0),
+    };
+    let mut p = old.clone();
+    let r = panics::guard(AssertUnwindSafe(|| p.clear(uc::M * x)));
+    let viol = |ctx: &mut Ctx, clause: &str, msg: String| {
+        ctx.violate(clause, &format!("C06:{clause}"), format!("after clear({x}): {msg}"), json!({"offset_back": x, "case": route_json(net, route, tp)}));
+    };
+    ctx.count("obs.clear_calls");
+    let del = match r {
+        Ok(Ok(d)) => d,
+        Ok(Err(e)) => {
+            viol(ctx, "clear_rejected", format!("a position inside the path was rejected: {e:#}"));
+            return;
+        }
+        Err(pn) => {
+            // Outside this property (it concerns the speed profile, which C06 does not speak about, and no simulation
+            // calls clear): when no speed point lies at or after the new first boundary - a constant limit from there
+            // on - the scan for the speed points to release runs off the end of the vector. Recorded, not judged.
+            let k = (0..nb - 1).take_while(|i| lp_old[i + 1].offset.value < x).count();
+            let no_speed_point_left = k > 0 && old.speed_points().iter().all(|sp| sp.offset.value < lp_old[k].offset.value);
+            if no_speed_point_left {
+                ctx.count("obs.clear_aborts_when_no_speed_point_follows_the_new_start(record_only)");
+            } else {
+                viol(ctx, "clear_panic", format!("panic {} at {}", pn.message, pn.location));
+            }
+            return;
+        }
+    };
+    // links released: those that end before x
+    let k = (0..nb - 1).take_while(|i| lp_old[i + 1].offset.value < x).count();
+    if k > 0 {
+        ctx.count("obs.clear_calls_releasing_links");
+    }
+    let lp = p.link_points();
+    if lp.len() != nb - k || lp.iter().zip(&lp_old[k..]).any(|(n, o)| n != o) {
+        viol(ctx, "clear_link_points", format!("{} link points remain, expected the last {} of {}", lp.len(), nb - k, nb));
+        return;
+    }
+    let want = (lp_old[..k].iter().map(|l| l.grade_count).sum::<usize>(), lp_old[..k].iter().map(|l| l.curve_count).sum::<usize>(), lp_old[..k].iter().map(|l| l.cat_power_count).sum::<usize>());
+    if (del.grade_count, del.curve_count, del.cat_power_count) != want {
+        viol(ctx, "clear_reported_counts", format!("reports (grade, curve, catenary) counts {:?} released, the released links held {:?}", (del.grade_count, del.curve_count, del.cat_power_count), want));
+    }
+    let (grades, curves, cats) = (p.grades(), p.curves(), p.cat_power_limits());
+    let fin = if old.is_finished() { 2 } else { 1 };
+    let gsum: usize = lp.iter().map(|l| l.grade_count).sum();
+    let csum: usize = lp.iter().map(|l| l.curve_count).sum();
+    let catsum: usize = lp.iter().map(|l| l.cat_power_count).sum();
+    if gsum + fin != grades.len() || csum + fin != curves.len() || catsum != cats.len() {
+        viol(ctx, "clear_count_bookkeeping", format!("sum of counts grade {gsum} curve {csum} cat {catsum} vs vector lengths {} {} {}", grades.len() - fin, curves.len() - fin, cats.len()));
+        return;
+    }
+    let (mut gi, mut ci) = (0usize, 0usize);
+    for l in lp.iter() {
+        if grades[gi].offset != l.offset || curves[ci].offset != l.offset {
+            viol(ctx, "clear_count_alignment", format!("link point at {} not at summed grade/curve index (grade offset {}, curve offset {})", l.offset.value, grades[gi].offset.value, curves[ci].offset.value));
+            return;
+        }
+        gi += l.grade_count;
+        ci += l.curve_count;
+    }
+    // geometry from the new first boundary on is unchanged
+    let start = lp[0].offset.value;
+    let mut xs: Vec<f64> = old.grades().iter().chain(old.curves().iter()).map(|q| q.offset.value).filter(|q| q.is_finite() && *q >= start).collect();
+    xs.sort_by(|a, b| a.partial_cmp(b).unwrap());
+    xs.dedup();
+    let mids: Vec<f64> = xs.windows(2).map(|w| 0.5 * (w[0] + w[1])).collect();
+    for q in xs.iter().chain(mids.iter()) {
+        ctx.count("obs.clear_points_compared");
+        if path_val(grades, *q) != path_val(old.grades(), *q) || path_val(curves, *q) != path_val(old.curves(), *q) {
+            viol(ctx, "clear_geometry_kept", format!("cumulative grade / curve resistance at x={q} is ({}, {}), before the call ({}, {})", path_val(grades, *q), path_val(curves, *q), path_val(old.grades(), *q), path_val(old.curves(), *q)));
+            return;
+        }
+    }
+    let cats_want: Vec<_> = old.cat_power_limits().iter().skip(want.2).cloned().collect();
+    if cats != cats_want.as_slice() {
+        viol(ctx, "clear_catenary_kept", format!("{} catenary sections remain, expected {}", cats.len(), cats_want.len()));
+    }
+}
+
 pub fn run_geometry(ctx: &mut Ctx, rng: &mut Rng, thorough: bool) {
     let o = NetOpts::path_default(rng);
     let net = gn::network(rng, &o);
@@ -608,6 +703,11 @@ pub fn run_geometry(ctx: &mut Ctx, rng: &mut Rng, thorough: bool) {
                             json!({"mask": mask, "case": route_json(&net, &route, &tp)}));
                     }
                 }
+            }
+        }
+        if let Some(f) = &first {
+            if route.len() >= 2 {
+                check_clear(ctx, rng, &net, &route, &tp, f);
             }
         }
         if first.is_some() {
